@@ -389,6 +389,11 @@ def hb_attach(sim):
     setf_ptr(sim, "heartbeat", fn)
 
 
+def hb_attach_twophase(sim):
+    fn = ctypes.cast(L.verif_heartbeat_twophase, c_void_p).value
+    setf_ptr(sim, "heartbeat", fn)
+
+
 def hb_detach(sim):
     setf_ptr(sim, "heartbeat", 0)
 
